@@ -128,6 +128,7 @@ def unused_params(ctx, py, mods=("trees", "tables", "vcf", "genotypes", "stats",
                 ok = p in used or has_locals or (mn, qn, p) in UNUSED_OK
                 ctx.ob(rule, "%s.%s|%s" % (mn, qn, p), ok, m.loc(fn),
                        "read" if ok else "parameter `%s` of %s is never read: the option is ignored" % (p, qn))
+    py_dead_stores(ctx, py, mods, only=only)
     return n
 
 
@@ -782,4 +783,29 @@ def table_name_agreement(ctx, py, rule="PY-TABLE-NAMES"):
                     bad.append("reads %s" % x.attr)
         n += 1
         ctx.ob(rule, qn, not bad, m.loc(fn), "touches only %s" % pl if not bad else "%s %s" % (name, "; ".join(sorted(set(bad)))))
+    return n
+
+
+def py_dead_stores(ctx, py, mods, only=None, rule="PY-DEAD-STORE"):
+    ctx.rule(rule, "no local name in this property's Python functions is only ever assigned (never read): a computed-and-ignored "
+                   "value means a later expression uses the wrong name or a step was dropped")
+    n = 0
+    for mn in mods:
+        m = py.mod(mn)
+        for qn, fn in m.funcs.items():
+            if only is not None and not only(mn, qn):
+                continue
+            stores, loads = {}, set()
+            for x in ast.walk(fn):
+                if isinstance(x, ast.Name):
+                    if isinstance(x.ctx, ast.Store):
+                        stores.setdefault(x.id, x)
+                    else:
+                        loads.add(x.id)
+            if any(isinstance(c, ast.Call) and call_name(c) in ("locals", "vars") for c in ast.walk(fn)):
+                continue
+            dead = sorted(v for v in stores if v not in loads and not v.startswith("_"))
+            n += 1
+            ctx.ob(rule, "%s.%s" % (mn, qn), not dead, m.loc(stores[dead[0]]) if dead else m.loc(fn),
+                   "every assigned name is read" if not dead else "name(s) %s assigned but never read" % dead)
     return n
